@@ -11,8 +11,7 @@ import sys
 
 sys.path.insert(0, os.path.dirname(os.path.abspath(__file__)))
 from simlib import driver  # noqa: E402
-from simlib.configs import CONFIGS  # noqa: E402
-from simlib import cfg_vm  # noqa: E402,F401
+from simlib.allconfigs import CONFIGS  # noqa: E402
 
 
 def main():
